@@ -3,27 +3,58 @@ from . import lib
 
 META = {
     'level': 'proof',
-    'technique': 'Lean 4 theorems (sort + binary-search decision = OSV evaluation, all event lists) + exhaustive/random correspondence of the Lean model with vulns.IsAffected',
+    'technique': 'Lean 4 theorems (sort with tie-break + binary search + exact-hit scan = the order-free OSV sentence, all event lists incl. '
+                 'events sharing a version) + exhaustive/random correspondence of the Lean model with vulns.IsAffected, every answer judged by the specification',
     'design_ref': 'DESIGN.md §5 C18',
-    'text': 'Kernel-checked theorems: for every well-formed range in any listing order the model of IsAffected (stable sort, binary search, '
-            'exact/between decision) equals the OSV evaluation; record-level rule; other packages/ecosystems never match. The model is tied '
-            'to the Go function by running both on every well-formed event list of length <=5 over 7 versions x 3 ecosystems (thorough) or a seeded '
-            'sample plus ill-formed lists (quick).',
+    'text': 'Kernel-checked theorems: the specification is the property\'s own order-free sentence (osvDecl: the version lies in an interval opened by an '
+            'introduced event i <= q that no fixed event in (i, q] and no last_affected event in [i, q) closes); it equals the OSV evaluation loop over the events '
+            'ordered by (version, kind: fixed, introduced, last_affected) for EVERY event list (C18_decl). A range is well formed when, ordered that way, its '
+            'events alternate introduced, fixed|last_affected, … without repetition — so events may share a version exactly as far as they can be ordered '
+            'to alternate unambiguously: {introduced X, last_affected X} (exactly X), {fixed X, introduced X} after an earlier opening (adjacent intervals), or all '
+            'three; {introduced X, fixed X} as an (empty) interval of its own, two closing events on one version and duplicates are not (C18_wf_tie_shapes). For '
+            'every well-formed range in every listing order the model of IsAffected (sort by version then kind, binary search, scan of all events on an exact hit, '
+            'previous event otherwise) equals the specification (C18_range, C18_range_decl, C18_record), also stated over an abstract comparison (C18_range_cmp, '
+            'C18_range_decl_cmp); the sorted list — hence the decision — does not depend on the listing order nor on the stability of the sort '
+            '(C18_listing_order, C18_sort_pre); other packages/ecosystems never match. The model is tied to the Go function by running both on every '
+            'well-formed event list of length <=5 over 7 versions x 3 ecosystems, lists with a shared version in all their listing orders (thorough), or a seeded '
+            'sample (quick) of untied lists, tied lists (single-version intervals, adjacent intervals, closing event listed first, different spellings of the tied '
+            'version, >12 events, queries at / just below / just above the tied version), near-ties and arbitrary ill-formed lists; each implementation answer on a '
+            'well-formed record is compared with the specification.',
     'note': 'Trusted: Lean kernel; axioms propext/Quot.sound/Classical.choice at most; deps.dev semver.Compare is a total order agreeing with the rank tables '
-            '(checked at generator start-up); slices.SortFunc / BinarySearchFunc by contract; the Go harness and line protocol.',
+            '(checked at generator start-up); slices.SortFunc / BinarySearchFunc by contract (any correct sort: the comparator is total on distinct events); the Go harness and line protocol. '
+            'The model is the code after the repair of the tie defect (events on one version were left in listing order and only the first was looked at: '
+            'C18_old_closing_listed_first, C18_old_adjacent_intervals are decided witnesses about the decision procedure before it).',
 }
-THEOREMS = ['Scalibr.Vulns.C18_range', 'Scalibr.Vulns.C18_listing_order', 'Scalibr.Vulns.C18_listing_order_decision',
-            'Scalibr.Vulns.C18_record', 'Scalibr.Vulns.C18_decl', 'Scalibr.Vulns.C18_range_cmp', 'Scalibr.Vulns.C18_range_type', 'Scalibr.Vulns.C18_other', 'Scalibr.Vulns.C18_unknown_ecosystem',
-            'Scalibr.Vulns.C18_sort_pre', 'Scalibr.Vulns.C18_illformed_differs', 'Scalibr.Vulns.specAffectedB_iff']
+THEOREMS = ['Scalibr.Vulns.C18_decl', 'Scalibr.Vulns.C18_range', 'Scalibr.Vulns.C18_range_decl', 'Scalibr.Vulns.C18_listing_order',
+            'Scalibr.Vulns.C18_listing_order_decision', 'Scalibr.Vulns.C18_record', 'Scalibr.Vulns.C18_range_cmp', 'Scalibr.Vulns.C18_decl_cmp',
+            'Scalibr.Vulns.C18_range_decl_cmp', 'Scalibr.Vulns.C18_range_type', 'Scalibr.Vulns.C18_other', 'Scalibr.Vulns.C18_unknown_ecosystem',
+            'Scalibr.Vulns.C18_sort_pre', 'Scalibr.Vulns.C18_wf_tie_shapes', 'Scalibr.Vulns.C18_old_closing_listed_first',
+            'Scalibr.Vulns.C18_old_adjacent_intervals', 'Scalibr.Vulns.C18_illformed_differs', 'Scalibr.Vulns.specAffectedB_iff']
+
+
+def _ranges(case):
+    """event lists of the case line: [[(kind, rank), …], …]"""
+    out = []
+    for x in case.split(' ')[5:]:
+        if ':' in x:
+            out.append([(e.split(':')[0], int(e.split(':')[1]) % 100) for e in x.split(',')])
+    return out
 
 
 def run(ctx):
     ctx.trusted = ['Lean 4.33.0 kernel', 'axioms: propext, Quot.sound (see theorems.*.axioms)', 'deps.dev semver.Compare orders the rank tables (asserted at generator start)',
-                   'slices.SortFunc/BinarySearchFunc contracts', 'harness/cmd/c18gen + lean/Drivers/C18.lean line protocol', 'Lean compiler for the driver executable']
-    ctx.assumptions = ['versions are modelled as ranks in a linear order; "0" is rank 0', 'event lists with limit events or several fields set are outside the model']
+                   'slices.SortFunc/BinarySearchFunc contracts (SortFunc: any correct sort — the comparator separates distinct events, C18_sort_pre)',
+                   'harness/cmd/c18gen + lean/Drivers/C18.lean line protocol', 'Lean compiler for the driver executable']
+    ctx.assumptions = ['versions are modelled as ranks in a linear order; "0" is rank 0 and only ever an introduced version; the queried version is never the literal "0"',
+                       'event lists with limit events or several fields set are outside the model',
+                       'well-formed = ordered by (version, kind: fixed < introduced < last_affected) the events alternate introduced / fixed|last_affected from introduced, '
+                       'strictly increasing in that order; events sharing a version that cannot be ordered so ({introduced X, fixed X} alone, fixed X + last_affected X, '
+                       'duplicates) are ill-formed and carry no claim']
     ctx.rule = ('case = (package, vulnerability record with 1-2 affected entries, 1-2 ranges each); thorough enumerates every well-formed event list of length <=5 over 7 ranks '
-                'in 3 listing orders x 13 query ranks x 3 ecosystems; random cases mix 70% well-formed shuffled lists with ill-formed ones. non-trivial = some range has >=2 events '
-                'and the record is for the queried package; distinct = distinct case lines')
+                '(events may share a rank; lists that do in ALL their listing orders, the others in 3) x 13 query ranks x 3 ecosystems; random cases: 1/3 tie cases '
+                '(adjacent / single-version intervals of 2-6 or 13-24 events in natural, reversed, group-reversed, closings-first or shuffled order, tied events spelled '
+                'differently, query within 1 of a tied rank, 1/6 near-ties), the rest 50% untied well-formed shuffled lists, 20% tied lists, 30% arbitrary lists. '
+                'non-trivial = some range has >=2 events and the record is for the queried package; distinct = distinct case lines')
     ok, _ = ctx.lean_build(['Scalibr.Properties.C18', 'drv_c18'])
     proofs_ok = ctx.audit(['Scalibr.Properties.C18'], THEOREMS)
     if ctx.tier == 'thorough':
@@ -37,13 +68,26 @@ def run(ctx):
         return any(x.count(':') >= 2 for x in t[5:])
 
     def oracle(case, fi, fm):
-        # the spec (OSV evaluation, computed by the Lean driver from the case) judged against the IMPLEMENTATION's answer
+        # the spec (the order-free OSV sentence, computed by the Lean driver from the case) judged against the IMPLEMENTATION's answer
         if fm.get('wf') == '1' and 'spec' in fm and fi.get('aff') != fm.get('spec'):
-            return 'IsAffected returned %s, the OSV evaluation of this well-formed record is %s' % (fi.get('aff', fi.get('_')), fm['spec'])
+            return 'IsAffected returned %s, the OSV rule for this well-formed record says %s%s' % (
+                fi.get('aff', fi.get('_')), fm['spec'], ' (events share a version)' if fm.get('tie') == '1' else '')
         return None
 
     def classify(case, fi, fm):
-        return 'wf=%s aff=%s' % (fm.get('wf'), fi.get('aff', fi.get('_')))
+        cls = 'wf=%s aff=%s' % (fm.get('wf'), fi.get('aff', fi.get('_')))
+        if fm.get('tie') == '1':
+            q = int(case.split(' ')[3]) % 100
+            rel, long_ = set(), False
+            for r in _ranges(case):
+                ranks = [v for _, v in r]
+                long_ = long_ or len(r) > 12
+                for v in set(ranks):
+                    if ranks.count(v) > 1 and abs(q - v) <= 1:
+                        rel.add({-1: 'below', 0: 'at', 1: 'above'}[q - v])
+            pos = next((x for x in ('at', 'above', 'below') if x in rel), 'elsewhere')   # relative to the nearest tied version
+            cls += ' tie(q %s)' % pos + (' >12ev' if long_ else '')
+        return cls
 
     lib.standard_stream(ctx, gen='c18gen', driver='drv_c18', gen_args=['-seed', str(ctx.seed), '-n', str(n), '-tier', ctx.tier],
                         compare_keys=['aff'], nontrivial=nontrivial, oracle=oracle, classify=classify)
